@@ -4,6 +4,8 @@ import SpecVerif.Model.Correlation
 import SpecVerif.Model.Periodogram
 import SpecVerif.Model.Levinson
 import SpecVerif.Model.Sides
+import SpecVerif.Model.Arma
+import SpecVerif.Model.Burg
 /-
   Line-protocol driver for the executable model (no Mathlib anywhere below this file, so it links as a
   `lean_exe`).
@@ -67,6 +69,13 @@ instance : Twid CRat where
     | 4 => [⟨1, 0⟩, ⟨0, -1⟩, ⟨-1, 0⟩, ⟨0, 1⟩]
     | _ => []
 
+/-- natural logarithm of the real part, where available (order-selection criteria) -/
+class LogRe (K : Type) where
+  logRe : K → Option K
+
+instance : LogRe CFloat := ⟨fun z => some ⟨Float.log z.re, 0.0⟩⟩
+instance : LogRe CRat := ⟨fun _ => none⟩
+
 /-! ### request parsing -/
 
 def splitSections (toks : List String) : List (List String) :=
@@ -90,7 +99,7 @@ abbrev Reply (K : Type) := Except String (List (List K))
 
 section Handlers
 variable {K : Type} [Add K] [Sub K] [Mul K] [Div K] [Neg K] [OfNat K 0] [OfNat K 1] [NatCast K]
-  [Conj K] [ReOrd K] [Twid K]
+  [Conj K] [ReOrd K] [Twid K] [LogRe K]
 
 def natAt (hd : List String) (i : Nat) : Nat := ((hd.getD i "0").toNat?).getD 0
 def strAt (hd : List String) (i : Nat) : String := hd.getD i ""
@@ -142,6 +151,29 @@ def opOf (s : String) : Option (Bool × Side) :=
   | ["set", t] => (sideOf t).map (fun sd => (false, sd))
   | ["get", t] => (sideOf t).map (fun sd => (true, sd))
   | _ => none
+
+/-- value of the order-selection criterion `name` for sample size `N`, variance `rho`, order `k`
+    (criteria.py: AIC, AICc, KIC, AKICc, FPE, MDL) -/
+def critVal (name : String) (N : Nat) (rho : K) (k : Nat) : Option K :=
+  let n : K := (N : K)
+  let kk : K := (k : K)
+  let two : K := ((2 : Nat) : K)
+  let three : K := ((3 : Nat) : K)
+  match name with
+  | "FPE" => some (rho * (n + kk + 1) / (n - kk - 1))
+  | _ =>
+    match LogRe.logRe rho with
+    | none => none
+    | some l =>
+      match name with
+      | "AIC" => some (n * l + two * (kk + 1))
+      | "AICc" => some (l + two * (kk + 1) / (n - kk - two))
+      | "KIC" => some (l + three * (kk + 1) / n)
+      | "AKICc" => some (l + kk / n / (n - kk) + (three - (kk + two) / n) * (kk + 1) / (n - kk - two))
+      | "MDL" => match LogRe.logRe n with
+                 | some ln => some (n * l + kk * ln)
+                 | none => none
+      | _ => none
 
 /-- a matrix as `[rows, cols]` followed by the rows -/
 def matReply (m : List (List K)) : List (List K) :=
@@ -223,6 +255,40 @@ def handle (cmd : String) (hd : List String) (vs : List (List K)) : Reply K :=
           | some r => .ok r
           | none => .error "assert"
       | _, _ => .error "value"
+  | "burg" =>
+      -- burg order crit | x        (crit = "none" or a criterion name)
+      let x := vecAt vs 0
+      let name := strAt hd 1
+      let useCrit := name ≠ "none"
+      let rho0 := (burgInit x).rho
+      -- stop k ρ_k : criterion at order k exceeds the one at order k-1
+      let supported := !useCrit || (critVal name x.length rho0 0).isSome
+      if !supported then .error "unsupported" else
+      let stop := fun (k : Nat) (rk : K) =>
+        let prev := if k = 1 then rho0 else (burgRun x (k - 1)).rho
+        match critVal name x.length rk k, critVal name x.length prev (k - 1) with
+        | some c1, some c0 => reGt c1 c0
+        | _, _ => false
+      match arburg x (natAt hd 0) useCrit stop with
+      | .ok st => .ok [st.a, [st.rho], st.ref]
+      | .error e => .error e
+  | "arma2psd" =>
+      -- arma2psd nfft hasA hasB | A | B | rho | T
+      let nfft := natAt hd 0
+      needTw nfft (fun t =>
+        let A := if natAt hd 1 = 1 then some (vecAt vs 0) else none
+        let B := if natAt hd 2 = 1 then some (vecAt vs 1) else none
+        let la := match A with | some a => a.length | none => 0
+        let lb := match B with | some b => b.length | none => 0
+        if la ≥ nfft || lb ≥ nfft then .error "index"
+        else .ok [arma2psd t A B (scalAt vs 2) (scalAt vs 3) nfft])
+  | "classpsd" =>
+      -- classpsd isReal nfft scale | raw | twoPi | sampling
+      .ok [classPsd (vecAt vs 0) (natAt hd 0 = 1) (natAt hd 1) (natAt hd 2 = 1) (scalAt vs 1) (scalAt vs 2)]
+  | "minvar" =>
+      -- minvar nfft | a (leading 1 included) | P | sampling
+      let nfft := natAt hd 0
+      needTw nfft (fun t => .ok [minvarPsd t (vecAt vs 0) (scalAt vs 1) (scalAt vs 2) nfft])
   | "convhist" =>
       -- convhist isComplex nfft cur set:two get:center ... | p
       match sideOf (strAt hd 2), (hd.drop 3).mapM opOf with
@@ -236,7 +302,7 @@ def handle (cmd : String) (hd : List String) (vs : List (List K)) : Reply K :=
 end Handlers
 
 def runAt (K : Type) [Add K] [Sub K] [Mul K] [Div K] [Neg K] [OfNat K 0] [OfNat K 1] [NatCast K]
-    [Conj K] [ReOrd K] [Twid K] [Codec K] (cmd : String) (hd : List String)
+    [Conj K] [ReOrd K] [Twid K] [LogRe K] [Codec K] (cmd : String) (hd : List String)
     (secs : List (List String)) : String :=
   match secs.mapM (parseVec (K := K)) with
   | none => "err parse"
